@@ -130,6 +130,8 @@ func OracleDelivery(tr *Trace) []Finding {
 						}
 					}
 					add("C03", "list", "C03/list/"+kind, fmt.Sprintf("vb %d stream %d: %d deliveries but only %d expected; first surplus seqno %d (%s)", vb, si, len(got), len(exp), x.Seq, kind))
+				} else if len(got) < len(exp) && prefixOnly && waitedFor(tr, exp[len(got)].T, sg.CloseT) {
+					add("C03", "list", "C03/list/undelivered", fmt.Sprintf("vb %d stream %d: %d of %d expected events delivered; seqno %d was sent at tick %d on a stream that stayed open, and was still undelivered after the harness had waited 16 s for it", vb, si, len(got), len(exp), exp[len(got)].Seq, exp[len(got)].T))
 				} else if len(got) < len(exp) && !prefixOnly {
 					add("C03", "list", "C03/list/missing", fmt.Sprintf("vb %d stream %d: %d of %d expected events delivered; first missing seqno %d (sent at tick %d)", vb, si, len(got), len(exp), exp[len(got)].Seq, exp[len(got)].T))
 				}
@@ -221,6 +223,22 @@ func seqsOfD(s []*hx.Delivered) []uint64 {
 		}
 	}
 	return o
+}
+
+// waitedFor: did a barrier that started after the item was sent time out (16 s) before the client closed the stream?
+func waitedFor(tr *Trace, sentT, closeT int64) bool {
+	var start int64
+	for _, r := range tr.Log {
+		switch r.K {
+		case "ctl.barrier":
+			start = r.T
+		case "ctl.barrier.timeout":
+			if start > sentT && r.T < closeT {
+				return true
+			}
+		}
+	}
+	return false
 }
 
 // legalTuples builds, per vBucket, the set of legal resume points: one per item sent (under its
